@@ -166,6 +166,34 @@ func candidates(rs *gj5s.RuleSpec) []cand {
 				}
 			}, ok: ok, zero: n == 0})
 		}
+	case "map-items":
+		type mv struct {
+			name string
+			vals []protoreflect.Value
+			ok   bool
+		}
+		var shapes []mv
+		switch rs.Kind {
+		case gj5s.TString:
+			shapes = []mv{{"empty", nil, true}, {"one-good", []protoreflect.Value{protoreflect.ValueOfString("ab")}, true}, {"one-bad", []protoreflect.Value{protoreflect.ValueOfString("a")}, false}, {"good-and-bad", []protoreflect.Value{protoreflect.ValueOfString("abc"), protoreflect.ValueOfString("")}, false}, {"good-runes", []protoreflect.Value{protoreflect.ValueOfString("日本")}, true}}
+		case gj5s.TInt32:
+			shapes = []mv{{"empty", nil, true}, {"one-good", []protoreflect.Value{protoreflect.ValueOfInt32(1)}, true}, {"one-bad", []protoreflect.Value{protoreflect.ValueOfInt32(0)}, false}, {"good-and-bad", []protoreflect.Value{protoreflect.ValueOfInt32(5), protoreflect.ValueOfInt32(-1)}, false}}
+		case gj5s.TKeyID62:
+			shapes = []mv{{"empty", nil, true}, {"one-good", []protoreflect.Value{protoreflect.ValueOfString("0000000000000000000001")}, true}, {"one-bad", []protoreflect.Value{protoreflect.ValueOfString("not-an-id")}, false}}
+		}
+		for _, sh := range shapes {
+			sh := sh
+			ok := sh.ok
+			if rs.MinPairs != nil && uint64(len(sh.vals)) < *rs.MinPairs {
+				ok = false
+			}
+			out = append(out, cand{name: "map " + sh.name, set: func(m protoreflect.Message, fd protoreflect.FieldDescriptor) {
+				mp := m.Mutable(fd).Map()
+				for i, v := range sh.vals {
+					mp.Set(protoreflect.ValueOfString(fmt.Sprintf("k%d", i)).MapKey(), v)
+				}
+			}, ok: ok, zero: len(sh.vals) == 0})
+		}
 	case "bool":
 		for _, b := range []bool{false, true} {
 			b := b
@@ -416,7 +444,7 @@ func runPairs(r *vk.Runner) {
 				}
 				// the partner holds a valid value; when it is explicitly optional (a scalar that is
 				// not required) it is also left absent
-				partnerOptional := !b.Required && b.Family != "array" && b.Family != "map"
+				partnerOptional := !b.Required && b.Family != "array" && b.Family != "map" && b.Family != "map-items"
 				type pstate struct {
 					name string
 					set  bool
